@@ -188,6 +188,9 @@ func (g *Gen) lit(ty string) E {
 		return same(fmt.Sprintf("Pt{X: %d, Y: %d}", r.Intn(5), r.Intn(5)), ty)
 	case "[]Pt":
 		return same(fmt.Sprintf("[]Pt{{%d, %d}, {X: %d}}", r.Intn(5), r.Intn(5), r.Intn(5)), ty)
+	case "[]HostPt":
+		a, b, c := r.Intn(5), r.Intn(5), r.Intn(5)
+		return E{T: fmt.Sprintf("[]HostPt{{%d, %d}, {X: %d}}", a, b, c), P: fmt.Sprintf("[]host.HostPt{{%d, %d}, {X: %d}}", a, b, c), Ty: ty}
 	case "*HostPt":
 		a, b := r.Intn(5), r.Intn(5)
 		return E{T: fmt.Sprintf("&HostPt{%d, %d}", a, b), P: fmt.Sprintf("&host.HostPt{%d, %d}", a, b), Ty: ty}
@@ -270,7 +273,7 @@ func (g *Gen) expr(ty string, d int) E {
 		case 0, 1:
 			return bin(g.expr("int", d-1), pickS(r, "+", "-", "*"), g.expr("int", d-1), ty)
 		case 2:
-			return bin(g.expr("int", d-1), pickS(r, "%", "/"), same(fmt.Sprint(r.Intn(4)+2), "int"), ty)
+			return bin(g.expr("int", d-1), pickS(r, "%", "/"), konst(fmt.Sprint(r.Intn(4)+2), "int"), ty)
 		case 3:
 			t := pickS(r, "string", "[]int", "[]string", "map[string]int")
 			return call("len", "len", ty, g.expr(t, d-1))
@@ -316,6 +319,11 @@ func (g *Gen) expr(ty string, d int) E {
 			if e, ok := g.v("*int"); ok {
 				g.feat("pointer")
 				return E{T: "*" + e.T, P: "*" + e.P, Ty: ty}
+			}
+			if e, ok := g.v("[]HostPt"); ok {
+				f := pickS(r, "[0].X", "[1].X", "[0].Y", "[1].Sum()")
+				g.feat("slice-of-structs")
+				return E{T: e.T + f, P: e.P + f, Ty: ty}
 			}
 		case 9:
 			g.feat("native-func")
@@ -579,7 +587,7 @@ func (g *Gen) macroCall(d int) (E, bool) {
 
 var showTypes = []string{"int", "int", "string", "string", "bool", "float64", "int8", "uint8", "HostLevel"}
 var varTypes = []string{"int", "int", "string", "string", "bool", "float64", "int8", "uint8", "[]int", "[]int", "[]string", "map[string]int",
-	"[3]int", "HostPt", "*HostPt", "*int", "any", "func(int) int", "HostLevel"}
+	"[3]int", "HostPt", "*HostPt", "*int", "any", "func(int) int", "HostLevel", "[]HostPt", "[]HostPt"}
 
 func (g *Gen) text() *Stmt {
 	r := g.r
@@ -644,8 +652,19 @@ func (g *Gen) depth() int { return len(g.scopes) }
 func (g *Gen) stmt() *Stmt {
 	r := g.r
 	deep := g.depth() > 5
+	if len(g.loops) > 0 && g.loops[len(g.loops)-1].fn == g.fn && !deep {
+		// inside a loop or switch: more branch statements and nested loops
+		switch r.Intn(8) {
+		case 0, 1:
+			if s := g.branch(); s != nil {
+				return s
+			}
+		case 2:
+			return g.forStmt()
+		}
+	}
 	for try := 0; try < 8; try++ {
-		k := r.Intn(40)
+		k := r.Intn(45)
 		switch {
 		case k < 7:
 			if g.noShow {
@@ -724,6 +743,21 @@ func (g *Gen) stmt() *Stmt {
 			}
 		case k < 40:
 			if s := g.panicky(); s != nil {
+				return s
+			}
+		case k < 42:
+			if s := g.copyMutate(); s != nil {
+				return s
+			}
+		case k < 43:
+			if s := g.macroValue(); s != nil {
+				return s
+			}
+		case k < 45:
+			if deep {
+				continue
+			}
+			if s := g.selectStmt(); s != nil {
 				return s
 			}
 		}
@@ -845,7 +879,7 @@ func isConstLit(s string) bool {
 
 func (g *Gen) assign() *Stmt {
 	r := g.r
-	ty := pickS(r, "int", "int", "string", "bool", "[]int", "map[string]int", "[3]int", "HostPt", "*HostPt", "*int", "int8", "float64")
+	ty := pickS(r, "int", "int", "string", "bool", "[]int", "map[string]int", "[3]int", "HostPt", "HostPt", "*HostPt", "*int", "int8", "float64")
 	vs := g.vars(ty, true)
 	if len(vs) == 0 {
 		return nil
@@ -980,15 +1014,20 @@ func (g *Gen) forStmt() *Stmt {
 	switch {
 	case form < 4:
 		s.S = "in"
-		ty := pickS(r, "[]int", "[]int", "[]string", "string", "[3]int", "map[string]int", "[]Pt")
+		ty := pickS(r, "[]int", "[]int", "[]string", "string", "[3]int", "map[string]int", "[]Pt", "[]HostPt", "[]HostPt")
 		if ty == "[]Pt" && !g.hasPt {
-			ty = "[]int"
+			ty = "[]HostPt"
+		}
+		if ty == "[]HostPt" {
+			if _, ok := g.v(ty); !ok {
+				ty = "[]int"
+			}
 		}
 		var e E
 		if ty == "map[string]int" {
 			// the order of a map is random: at most one key
 			e = same(pickS(r, `map[string]int{"k": 2}`, `map[string]int{}`), ty)
-		} else if ty == "[]Pt" {
+		} else if ty == "[]Pt" || ty == "[]HostPt" {
 			if v, ok := g.v(ty); ok {
 				e = v
 			} else {
@@ -999,7 +1038,7 @@ func (g *Gen) forStmt() *Stmt {
 		}
 		e = paren(e)
 		name := g.name("x")
-		et := map[string]string{"[]int": "int", "[]string": "string", "string": "rune", "[3]int": "int", "map[string]int": "string", "[]Pt": "Pt"}[ty]
+		et := map[string]string{"[]int": "int", "[]string": "string", "string": "rune", "[3]int": "int", "map[string]int": "string", "[]Pt": "Pt", "[]HostPt": "HostPt"}[ty]
 		s.Es, s.Decl = []E{e}, []string{name}
 		if et != "rune" {
 			g.declare(Var{T: name, Ty: et})
@@ -1134,6 +1173,10 @@ func (g *Gen) switchStmt() *Stmt {
 	g.loops = g.loops[:len(g.loops)-1]
 	if len(s.Cs) == 0 {
 		s.Cs = []*SwCase{{Default: true, Body: g.body(1)}}
+	}
+	if len(s.Es) > 0 && s.Es[0].T == "HostBump()" && !g.noShow {
+		// the tag is evaluated once: the counter of the embedder shows it
+		return &Stmt{K: "group", A: []*Stmt{s, {K: "show", Es: []E{{T: "HostCount", P: "host.HostCount", Ty: "int"}}}}}
 	}
 	return s
 }
@@ -1532,4 +1575,125 @@ func (g *Gen) using() *Stmt {
 	g.fn--
 	g.loops = savedLoops
 	return s
+}
+
+// copyMutate: a copy of a struct, array, slice or map value is changed; both are shown (value and reference semantics).
+func (g *Gen) copyMutate() *Stmt {
+	if !g.on("value-semantics") || g.noShow {
+		return nil
+	}
+	r := g.r
+	ty := pickS(r, "HostPt", "[3]int", "[]int", "map[string]int", "Pt", "*HostPt")
+	if ty == "Pt" && !g.hasPt {
+		ty = "HostPt"
+	}
+	vs := g.vars(ty, false)
+	if len(vs) == 0 {
+		return nil
+	}
+	v := vs[r.Intn(len(vs))]
+	if ty == "[]int" && !v.NonEmpty {
+		return nil
+	}
+	g.feat("value-semantics")
+	name := g.name("v")
+	k := r.Intn(9) + 20
+	var sel string
+	switch ty {
+	case "HostPt", "Pt", "*HostPt":
+		sel = ".X"
+	case "[3]int", "[]int":
+		sel = "[0]"
+	default:
+		sel = `["k"]`
+	}
+	cp := &Stmt{K: "simple", Cut: true, Decl: []string{name}, Es: []E{{T: name + " := " + v.T, P: name + " := " + v.P}}}
+	mut := &Stmt{K: "simple", Cut: true, Es: []E{same(fmt.Sprintf("%s%s = %d", name, sel, k), "")}}
+	sh := &Stmt{K: "show", Flag: true, Es: []E{{T: v.T + sel, P: v.P + sel, Ty: "int"}, same(name+sel, "int")}}
+	g.declare(Var{T: name, Ty: ty, NonEmpty: v.NonEmpty})
+	return &Stmt{K: "group", A: []*Stmt{cp, mut, sh}}
+}
+
+// macroValue: a macro assigned to a variable and called through it.
+func (g *Gen) macroValue() *Stmt {
+	if !g.on("macro-value") || g.code {
+		return nil
+	}
+	var ms []Macro
+	for _, m := range g.allMacros() {
+		if !m.HasDefer && !strings.Contains(m.T, "itea") {
+			ms = append(ms, m)
+		}
+	}
+	if len(ms) == 0 {
+		return nil
+	}
+	m := ms[g.r.Intn(len(ms))]
+	for _, p := range m.Params {
+		if p.Variadic {
+			return nil
+		}
+	}
+	g.feat("macro-as-value")
+	name := g.name("f")
+	s := &Stmt{K: "simple", Decl: []string{name}, Es: []E{{T: "var " + name + " = " + m.T, P: "var " + name + " = " + m.P}}}
+	g.declareMacro(Macro{T: name, Params: m.Params, Rec: true})
+	return s
+}
+
+// selectStmt: a select over buffered channels declared just before it: exactly one case is ready, or none and a default.
+func (g *Gen) selectStmt() *Stmt {
+	if !g.on("select") || g.noShow {
+		return nil
+	}
+	r := g.r
+	g.feat("select")
+	ch1, ch2 := g.name("ch"), g.name("ch")
+	pre := []*Stmt{
+		{K: "simple", Cut: true, Decl: []string{ch1}, Es: []E{same(ch1+" := make(chan int, 2)", "")}},
+		{K: "simple", Cut: true, Decl: []string{ch2}, Es: []E{same(ch2+" := make(chan string, 1)", "")}},
+	}
+	s := &Stmt{K: "select", Multi: r.Intn(4) == 0}
+	g.push()
+	defer g.pop()
+	if !g.code {
+		s.Lead = &Stmt{K: "text", S: pickS(r, "", "\n", " "), Flag: true}
+	}
+	mode := r.Intn(4)
+	switch mode {
+	case 0:
+		e := g.expr("int", 1)
+		pre = append(pre, &Stmt{K: "simple", Cut: true, Es: []E{{T: ch1 + " <- " + e.T, P: ch1 + " <- " + e.P, Sets: e.Sets}}})
+	case 1:
+		e := g.expr("string", 1)
+		pre = append(pre, &Stmt{K: "simple", Cut: true, Es: []E{{T: ch2 + " <- " + e.T, P: ch2 + " <- " + e.P, Sets: e.Sets}}})
+	case 2:
+		// a send case: the first channel is full, the second has room
+		pre = append(pre, &Stmt{K: "simple", Cut: true, Es: []E{same(ch1+" <- 1", "")}}, &Stmt{K: "simple", Cut: true, Es: []E{same(ch1+" <- 2", "")}})
+	}
+	g.loops = append(g.loops, loopCtx{s: s, fn: g.fn})
+	if mode == 2 {
+		// nothing can be received; the send on the full channel blocks, the other send proceeds
+		s.Cs = []*SwCase{
+			{Es: []E{same(ch1+" <- 3", "")}, Body: g.body(1)},
+			{Es: []E{same(ch2+` <- "s"`, "")}, Body: g.body(1 + r.Intn(2))},
+		}
+	} else {
+		x1, x2 := g.name("x"), g.name("x")
+		g.push()
+		g.declare(Var{T: x1, Ty: "int", RO: true})
+		c1 := &SwCase{Es: []E{same(x1+" := <-"+ch1, "")}, CommDecl: x1, Body: g.body(1 + r.Intn(2))}
+		g.pop()
+		g.push()
+		g.declare(Var{T: x2, Ty: "string", RO: true})
+		c2 := &SwCase{Es: []E{same(x2+", ok := <-"+ch2, "")}, CommDecl: x2 + ", ok", Body: g.body(1 + r.Intn(2))}
+		g.pop()
+		s.Cs = []*SwCase{c1, c2}
+	}
+	if mode == 3 || r.Intn(2) == 0 {
+		s.Cs = append(s.Cs, &SwCase{Default: true, Body: g.body(1)})
+	}
+	r.Shuffle(len(s.Cs), func(i, j int) { s.Cs[i], s.Cs[j] = s.Cs[j], s.Cs[i] })
+	g.loops = g.loops[:len(g.loops)-1]
+	return &Stmt{K: "group", A: append(pre, s)}
 }
